@@ -32,6 +32,26 @@ def log(*a):
     print(*a, flush=True)
 
 
+CHILD_PGIDS = []
+
+
+def _kill_children(*_a):
+    for pg in list(CHILD_PGIDS):
+        try:
+            os.killpg(pg, 9)
+        except Exception:
+            pass
+    if _a:
+        os._exit(2)
+
+
+import atexit
+import signal
+atexit.register(_kill_children)
+signal.signal(signal.SIGTERM, _kill_children)
+signal.signal(signal.SIGINT, _kill_children)
+
+
 def write_cargo_toml(d):
     """Cargo.toml from Cargo.toml.in with the repository path (default /repo; VERIF_REPO is only for
     running the machinery against a scratch copy when testing seeded changes)."""
@@ -160,6 +180,7 @@ def kani_group(pid, gname, group, harnesses, jobs, workdir):
     with open(out_log, "w") as lf:
         proc = subprocess.Popen(cmd, cwd=KANI_DIR, env=ENV_BASE, stdout=lf, stderr=subprocess.STDOUT, start_new_session=True)
         holder.append(os.getpgid(proc.pid))
+        CHILD_PGIDS.append(holder[0])
         th = threading.Thread(target=watchdog, args=(holder,), daemon=True)
         th.start()
         proc.wait()
